@@ -30,6 +30,6 @@ def generators(tier, seed):
 
 MANIFEST = dict(
     design_ref="DESIGN.md §5 C20",
-    text="TLC enumerates ignore files (pattern forms x lines), tools, root spellings and activation modes; each is one run; Judge_C20 requires the rows to be exactly the entries that the tool's rules do not ignore: git's verdict is recorded from `git check-ignore`, Mercurial's and Docker's rules are the TLA+ reference matchers of Ignore.tla (path-aware globs, unrooted vs rooted patterns, last-match-wins negation).",
+    text="TLC enumerates ignore files (pattern forms x lines), tools, root spellings and activation modes; each is one run; Judge_C20 requires the rows to be exactly the entries that the tool's rules do not ignore: git's verdict is recorded from `git check-ignore`, Mercurial's and Docker's rules are the TLA+ reference matchers of Ignore.tla (path-aware globs, unrooted vs rooted patterns, last-match-wins negation). The Mech model IgnoreMech (line -> regular-expression pieces, hg / docker folds) is checked equivalent to Ignore.tla by MC_IgnoreMech and bound to the binary by Judge_IgnoreMech (DRIFT); MC_C20g adds several repositories below a root outside of them.",
     note="Trusted: TLC, Ignore/Regex, git check-ignore. Pattern subset of the quantifier only; re-inclusion below an excluded directory, character classes and subinclude are not generated.",
     technique="TLC enumeration + replay + TLA+ judge (reference matchers; git as recorded oracle)")
